@@ -60,6 +60,7 @@ package scheduler
 //@             backgroundInitialSizeClassLearner != nil && backgroundInitialSizeClassLearner != old(t.initialSizeClassLearner) ==>
 //@             lrncalls(backgroundInitialSizeClassLearner) == old(lrncalls(backgroundInitialSizeClassLearner)) + 1 ||
 //@             (isnew(backgroundTask) && backgroundTask.initialSizeClassLearner == backgroundInitialSizeClassLearner)
+//@   loop 5 exhaustive
 //@   loop 5 invariant transplanted-operations-are-homed-in-the-largest-size-class:
 //@             forall k *invocation :: (k in t.operations) ==> t.operations[k].invocation.sizeClassQueue == largestSCQ
 //@   at call schedule#2 assert a-retried-task-is-queued-with-the-expected-duration-of-the-retry: t.expectedDuration == expectedDuration
@@ -242,6 +243,7 @@ package scheduler
 //@   props C01 C02 C06
 //@   ensures held-by-exactly-this-worker: w.currentTask == t && t.currentWorker == w
 //@   ensures every-assignment-starts-with-a-fresh-redelivery-budget: t.retryCount == 0
+//@   loop 1 exhaustive
 //@   loop 1 invariant stickinessRetained <= i && w == old(w) && bq == old(bq) &&
 //@             (forall j int :: stickinessRetained <= j && j < i && j < len(w.stickinessStartingTimes) ==> w.stickinessStartingTimes[j] == bq.now) &&
 //@             (forall j int :: 0 <= j && j < stickinessRetained && j < len(w.stickinessStartingTimes) ==> w.stickinessStartingTimes[j] == old(w.stickinessStartingTimes[j]))
@@ -378,6 +380,7 @@ package scheduler
 // all child invocations are emptied, then the operations queued directly.
 //@ func (*invocation).cancelAllQueuedOperations
 //@   props C01 C02 C06
+//@   loop 1 exhaustive
 //@   loop 1 entry every-child-invocation-was-emptied-first: len(i.queuedChildren) == 0
 //@   at call complete#1 assert cancels-a-directly-queued-operation-of-this-invocation: arg0 == i.queuedOperations[len(i.queuedOperations)-1].task && !arg3
 //@   ensures nothing-stays-queued-directly: len(i.queuedOperations) == 0
@@ -435,11 +438,14 @@ package scheduler
 //@   at call assignUnqueuedTaskAndWakeUp#1 assert handed-to-the-first-idle-synchronizing-worker-of-the-invocation-found:
 //@             len(i.idleSynchronizingWorkers) > 0 && arg0 == i.idleSynchronizingWorkers[0].worker && arg2 == t
 //@   at call assignUnqueuedTaskAndWakeUp#1 ghostset schedsteps[1] = schedsteps(1) + 1
+//@   loop 4 exhaustive
 //@   loop 4 entry queued-only-when-not-even-the-root-has-a-waiting-worker:
 //@             i.parent == nil && len(i.idleSynchronizingWorkers) == 0 && len(i.idleSynchronizingWorkersChildren) == 0
 //@   at call enqueue#1 ghostset schedsteps[2] = schedsteps(2) + 1
+//@   loop 0 exhaustive
 //@   loop 0 invariant schedsteps(1) == 0 && schedsteps(2) == 0
 //@   loop 1 invariant schedsteps(1) == 0 && schedsteps(2) == 0
+//@   loop 3 exhaustive
 //@   loop 3 invariant schedsteps(1) == 0 && schedsteps(2) == 0
 //@   loop 2 invariant schedsteps(1) == 0 && schedsteps(2) == 0
 //@   loop 4 invariant schedsteps(1) == 0
